@@ -217,6 +217,8 @@ def check_c16(tier):
         "--threads but solve sequentially; sop/tsptw/srflp --width is the multiplier of their own width heuristics",
         "tsptw numbers are decimal binary32 values in units of 1/10000 (the example's own definition); generated values are "
         "multiples of 1/4 so that no rounding is involved; the printed objective has two decimals",
+        "the oracle is validated on every repository instance small enough to enumerate whose optimum is asserted by the examples' "
+        "tests.rs (knapsack, max2sat, sop, tsptw, srflp, talentsched, psp, golomb); misp, mcp, lcs, alp have no such instance",
         "generated instances satisfy the unstated conventions of the formats (symmetric srflp flows, 0/1 psp demands, "
         "tsptw/alp triangle inequality, sop first/last node fixed by precedences) except in the explicitly tagged shapes "
         "(finding classes other than <example>-core / <example>-infeasible)",
@@ -231,6 +233,10 @@ def check_c16(tier):
             chk.violation("unproved", p, {"problem": p})
         chk.cov.update(evaluations=0, explanation="build failure")
         return chk.finish()
+
+    head = run(["git", "rev-parse", "--short", "HEAD"], cwd="/repo").stdout.strip()
+    dirty = run(["git", "status", "--short"], cwd="/repo").stdout.strip().split("\n")
+    chk.cov["repo_state_at_build"] = {"head": head, "modified_files": [d for d in dirty if d][:20]}
 
     # ---- 1. the oracle reproduces the optima documented in the repository
     known = KNOWN + (KNOWN_THOROUGH if tier == "thorough" else [])
@@ -266,7 +272,7 @@ def check_c16(tier):
             path = os.path.join(d, "i%05d.txt" % k)
             with open(path, "w") as f: f.write(ins["text"])
             work.append((ex, ins, path, full, k))
-            dd["random" if full else "exhaustive"] += 1
+            if ins["shape"] != "corpus": dd["random" if full else "exhaustive"] += 1
             dd["shapes"][ins["shape"]] = dd["shapes"].get(ins["shape"], 0) + 1
             dd["sizes"][str(ins["size"])] = dd["sizes"].get(str(ins["size"]), 0) + 1
 
@@ -332,7 +338,13 @@ def check_c16(tier):
         cls = ins["cls"] if opt is not None else "%s-infeasible" % ex
         pe["failures"]["%s/%s" % (cls, kind)] = pe["failures"].get("%s/%s" % (cls, kind), 0) + 1
         failures.append((ins["size"], len(ins["text"]), ex, cls, kind, ins, opt, want, res, w, t))
-    failures.sort(key=lambda f: (f[0], f[1]))
+    # most significant first: wrong objectives on the core distribution, then the tagged shapes, then crashes on infeasible
+    # instances; within a class the smallest instance first (it becomes the replay)
+    def rank(f):
+        cls, kind = f[3], f[4]
+        return (0 if cls.endswith("-core") else 2 if cls.endswith("-infeasible") else 1,
+                {"wrong-objective": 0, "hang": 1, "not-proved": 2, "crash": 3}[kind], f[0], f[1])
+    failures.sort(key=rank)
     with open(workfile("c16_failures.json"), "w") as f:       # scratch copy of every failing run, for triage
         json.dump([{"example": x[2], "class": x[3], "kind": x[4], "shape": x[5]["shape"], "instance": x[5]["text"], "oracle": x[6],
                     "expected": x[7], "got": x[8]["got"], "why": x[8].get("why"), "width": x[9], "threads": x[10],
@@ -370,7 +382,9 @@ def check_c16(tier):
              "(sign / scaling conventions of each main.rs applied; infeasible = -1, tsptw +inf)" % RUN_TIMEOUT,
         configurations={"widths": ["1", "2", "3", "default"], "threads": list(THREADS)},
         per_example=per, input_distribution=dist, samples=samples,
-        oracle_validation={"instances_with_documented_optimum": len(known), "reproduced": sum(v[0] for v in validated.values())},
+        oracle_validation={"instances_with_documented_optimum": sum(v[1] for v in validated.values()),
+                           "reproduced": sum(v[0] for v in validated.values()),
+                           "not_validated_this_way": "misp, mcp, lcs, alp: every instance of the repository is too large for the enumeration"},
         failing_runs=len(failures), binaries_wall_s=round(t_run, 1), timeouts_retried_alone=retried,
         explanation="12 example binaries built from the working tree; %d instance files (%s per example from the seeded "
                     "generators%s); each run in its own process with a watchdog; oracle = extracted Coq enumeration"
